@@ -2,6 +2,7 @@ package main
 
 import (
 	"fmt"
+	"os"
 	"go/ast"
 	"go/constant"
 	"go/token"
@@ -138,6 +139,9 @@ func (c *Ctx) assumeOnce(term string) {
 }
 
 func (c *Ctx) errorf(format string, args ...interface{}) {
+	if os.Getenv("VCGEN_PANIC") != "" {
+		panic(fmt.Sprintf(format, args...))
+	}
 	c.errs = append(c.errs, fmt.Sprintf(format, args...))
 }
 
@@ -548,6 +552,9 @@ func (fr *Frame) run(st0 *State, reach0 string) {
 				ins = append(ins, predIn{ps, sAnd(fr.reach[p], cond)})
 			}
 			st, reach = fr.mergeStates(ins, fmt.Sprintf("b%d", b.Index))
+			if reach == "false" {
+				continue // statically unreachable (e.g. constant-folded branch of an inlined callee)
+			}
 		}
 		fr.curBlock = b
 		if li := fr.loops[b]; li != nil {
@@ -1640,6 +1647,17 @@ func (c *Ctx) mapLookup(glob string, key Val) (string, string) {
 	}
 	if fn2 {
 		c.assumeOnce(sImp(sEq(val, "102"), "(<= 2 "+key.C[2]+")"))
+	}
+	// every blacklisted two-class fingerprint ("0XY") ends in C or U
+	fp2 := true
+	for k, v := range c.pr.Tables.SqlKeywords {
+		if v == 'F' && len(k) == 3 && k[2] != 'C' && k[2] != 'U' {
+			fp2 = false
+		}
+	}
+	if fp2 {
+		k2 := sSel(key.C[0], lAdd(key.C[1], "2"))
+		c.assumeOnce(sImp(sAnd(sEq(val, "70"), sEq(key.C[2], "3")), sOr(sEq(k2, "67"), sEq(k2, "85"))))
 	}
 	if ascii {
 		q := c.fresh("qk")
